@@ -1,7 +1,7 @@
 /-
   UnytModel.Ops.C07 — opcodes of the C07 model (prefix `c07.`).
     c07.dump.counts                               → sizes of the regenerated tables
-    c07.predict <func> <variant> <outMode> <operands> <flags> <ok|raise> <nleaves> <leaf sizes> <shapes> <scales>
+    c07.predict <func> <variant> <outMode> <operands> <flags> <ok|raise> <nleaves> <leaf sizes> <shapes> <scales> <reduced counts>
                                                   → the unit label `UR.Leaf.exponents/scale` gives every result
                                                     leaf of that call form for the concrete shapes and unit scales
                                                     (operands `p:g,…`; flags `n=v,…`; leaf sizes `n,n,…`;
@@ -56,10 +56,20 @@ def c07Scales (s : String) : List (String × Float) :=
     | [g, b] => (fb b).map fun x => (g, x)
     | _ => none
 
-def c07Env (shapes : List (String × Shape)) (ops : List (String × String)) (resultSize : Nat) : Env :=
+def c07Counts (s : String) : List (String × Nat) :=
+  if s == "" then [] else
+  (s.splitOn ";").filterMap fun item =>
+    match (item.splitOn "=").reverse with
+    | k :: rest@(_ :: _) => k.toNat?.map fun n => ("=".intercalate rest.reverse, n)
+    | _ => none
+
+/-- `reduced` = the number of elements of an operand combined into each result element as MEASURED by the
+    harness on the real kernel (the same call on an array of twos returns 2^k), when it measured one -/
+def c07Env (shapes : List (String × Shape)) (ops : List (String × String)) (resultSize : Nat)
+    (reduced : List (String × Nat) := []) : Env :=
   { shape := fun p => (shapes.find? (·.1 == p)).map (·.2)
     resultSize := resultSize
-    reduced := fun _ => none
+    reduced := fun p => (reduced.find? (·.1 == p)).map (·.2)
     nops := fun p => (ops.filter fun (n, _) => Ref.paramBase n == p).length }
 
 def c07FlagsStr (fl : List (String × String)) : String := ",".intercalate (fl.map fun (n, v) => n ++ "=" ++ v)
@@ -76,7 +86,7 @@ def opsC07 : Handler := fun st fields =>
   match fields with
   | ["c07.dump.counts"] =>
     some (st, s!"ok\t{Generated.ruleRows.length}\t{Generated.staticExpos.length}\t{(Generated.ruleRows.map (·.func)).eraseDups.length}")
-  | ["c07.predict", f, v, om, opsS, flagsS, outcome, nleaves, sizesS, shapesS, scalesS] =>
+  | ["c07.predict", f, v, om, opsS, flagsS, outcome, nleaves, sizesS, shapesS, scalesS, reducedS] =>
     let raised := outcome != "ok"
     let n := nleaves.toNat?.getD 0
     let cands := Generated.ruleRows.filter fun r =>
@@ -95,13 +105,34 @@ def opsC07 : Handler := fun st fields =>
            | [h, r] => h :: List.replicate (n - 1) r
            | l => l)
         else row.leaves
+      let red := c07Counts reducedS
       let outs := (lvs.zip sizes).map fun (leaf, sz) =>
-        let env := c07Env shapes (c07Operands opsS) sz
+        let env := c07Env shapes (c07Operands opsS) sz red
         s!"{if leaf.carries then 1 else 0}|{c07LabelOut u env leaf.expo}"
+      -- the hand-written reference evaluated in the same environment (numeric comparison with the library by
+      -- the harness), and whether the environment meets the hypothesis of `C07_partial_all_shapes`
+      let refs : String := match Ref.expected row.callForm with
+        | .leaves specs =>
+          if specs.length != lvs.length then "-" else
+          " ".intercalate (((specs.zip lvs).zip sizes).map fun ((spec, leaf), sz) =>
+            let env := c07Env shapes (c07Operands opsS) sz red
+            match spec with
+            | .unitless => "u|1"
+            | .units l =>
+              let items := row.groups.map fun g =>
+                match expectedExpo row l g with
+                | some e =>
+                  let ok := envValidForB ((expoOf leaf.expo g).reducedParams ++ e.reducedParams) env
+                  (match e.eval env with
+                   | some q => (if q == 0 then "" else g ++ ":" ++ ratStr q, ok)
+                   | none => (g ++ ":?", ok))
+                | none => (g ++ ":roles", true)
+              ";".intercalate ((items.map (·.1)).filter (· != "")) ++ "|" ++ (if items.all (·.2) then "1" else "0"))
+        | _ => "-"
       let ol := match row.outLabel with
         | some lab => c07LabelOut u (c07Env shapes (c07Operands opsS) (sizes.headD 1)) lab
         | none => "-"
-      some (st, s!"ok\tvalue\t{" ".intercalate outs}\t{ol}")
+      some (st, s!"ok\tvalue\t{" ".intercalate outs}\t{ol}\t{refs}")
   | ["c07.defects", f] =>
     let ds := (Generated.ruleRows.filter (·.func == f)).flatMap fun r =>
       (rowDefects r).map fun d => r.variant ++ "|" ++ r.outMode ++ "|" ++ d
